@@ -44,7 +44,19 @@ def slice(ctx: fw.Ctx) -> fw.Outcome:
                 src.meta[snake] = 7 if kind == "int" else ("rhythm" if kind == "p2" else gen.rand_value(rng, prof))
         if rng.random() < 0.1:
             del src.meta["resolution"]
-        cases.append((src, gen.render(src, rng, prof)))
+        R = gen.render(src, rng, prof)
+        # near-miss lines for *absent* fields: not a canonical `Field = value` line of that field, so the default must stay
+        absent = [f for f in gen.FIELDS[1:] if f[0] not in src.meta]
+        if absent and rng.random() < 0.5:
+            snake, pascal, kind = rng.choice(absent)
+            bad = rng.choice([f"  {pascal} = 7.5", f"  {pascal} = 0.00", f"  {pascal} = -3", f"  {pascal} = 1e3"] if kind == "int"
+                             else [f"  {pascal.lower()} = \"x\"", f"  {pascal}= \"x\"", f"  {pascal} : \"x\"", f"  X{pascal} = \"x\""]
+                             if kind == "str" else [f"  {pascal} = \"ba\"ss\"", f"  {pascal}  = bass"])
+            lines = R.text.split(R.newline)
+            k = lines.index("[Song]") + 2
+            lines.insert(k, bad)
+            R.text = R.newline.join(lines)
+        cases.append((src, R))
     a, b = common.run_charts([(R.text, None) for _, R in cases])
     for (src, R), x, y in zip(cases, a, b):
         dx, dy = gen.parse_dump(x), gen.parse_dump(y)
